@@ -74,6 +74,7 @@ func c9SharedProc() *frugal.FBaseProcessor {
 				fctx.AddResponseHeader(k, p.R[k])
 			}
 		}})
+		c9Proc.AddToProcessorMap("s", &c9Fn{name: "s", base: frugal.NewFBaseProcessorFunction(&sync.Mutex{}, nil), handler: c9ScriptHandler})
 	})
 	return c9Proc
 }
